@@ -186,9 +186,26 @@ func (vm *VM) FindElement(name *IDName) (Element, error) {
 	// then look for local values
 	elem := vm.getCurrentScope().GetValue(nameStr)
 	if elem == nil {
+		if exportElem, _ := vm.findLoadedModuleExport(nameStr); exportElem != nil {
+			return exportElem, nil
+		}
 		return nil, zerr.NameNotDefined(nameStr)
 	}
 	return elem, nil
+}
+
+// findLoadedModuleExport - an imported method runs in its home module, whose top-level
+// symbols were popped from the scope when the module body ended; its methods and types
+// live on as the module's exports, so look there once the module has been loaded.
+func (vm *VM) findLoadedModuleExport(nameStr string) (Element, *Module) {
+	module := vm.GetCurrentModule()
+	if module == nil || !module.IsLoaded() {
+		return nil, nil
+	}
+	if exportElem, err := module.GetExportValue(nameStr); err == nil {
+		return exportElem, module
+	}
+	return nil, nil
 }
 
 func (vm *VM) FindElementWithModule(name *IDName) (Element, *Module, error) {
@@ -200,6 +217,9 @@ func (vm *VM) FindElementWithModule(name *IDName) (Element, *Module, error) {
 	// then look for local values
 	elem, moduleID := vm.getCurrentScope().GetValueWithModuleID(nameStr)
 	if elem == nil {
+		if exportElem, module := vm.findLoadedModuleExport(nameStr); exportElem != nil {
+			return exportElem, module, nil
+		}
 		return nil, nil, zerr.NameNotDefined(nameStr)
 	}
 
